@@ -375,6 +375,7 @@ func c17(r *ev.Result, tier string) {
 	c17KeptHistories(r, base)
 	c17TableChanges(r, base)
 	c17Counts(r, base)
+	c17Program(r, base)
 	if !c17Independent(r, base) {
 		r.Exhaustive = false
 		r.Set("stopped", "converters share state; the parallel enumeration was not run")
